@@ -389,10 +389,11 @@ func (p *ProofD) ChallengeContribution(pk *gabikeys.PublicKey) ([]*big.Int, erro
 	}
 
 	if p.RangeProofs != nil {
-		if p.cachedRangeStructures == nil {
-			if err := p.reconstructRangeProofStructures(pk); err != nil {
-				return nil, err
-			}
+		// Always derive the structures from the range proofs as they are now: structures kept from
+		// an earlier verification would describe (and check) the earlier content if the proof
+		// object has been decoded into or modified again since.
+		if err := p.reconstructRangeProofStructures(pk); err != nil {
+			return nil, err
 		}
 		// need stable attribute order for rangeproof contributions, so determine max undisclosed attribute
 		maxAttribute := 0
